@@ -24,20 +24,22 @@ fn put_space_dot<S: Src>(s: &mut S, out: &mut [u8], at: usize, n: usize) {
     let mut i = 0;
     while i < n { out[at + i] = if s.bool() { b' ' } else { b'.' }; i += 1; }
 }
+/// OPTS bit 0: protect_windows, bit 1: protect_hfs, bit 2: protect_ntfs
+fn opts_of(o: u8) -> Options { Options { protect_windows: o & 1 != 0, protect_hfs: o & 2 != 0, protect_ntfs: o & 4 != 0 } }
 fn refused<const N: usize>(name: &[u8; N], mode: Option<Mode>, opts: Options) -> bool {
     component(name[..].as_bstr(), mode, opts).is_err()
 }
 
 /// (1) `.git` in any case is refused under every option combination and mode
-fn h_dotgit_case<const SYMLINK: bool, S: Src>(s: &mut S) {
+fn h_dotgit_case<const OPTS: u8, const SYMLINK: bool, S: Src>(s: &mut S) {
     let mut n = [0u8; 4];
     put_case(s, &mut n, 0, b".git");
-    let opts = Options { protect_windows: s.bool(), protect_hfs: s.bool(), protect_ntfs: s.bool() };
+    let opts = opts_of(OPTS);
     assert!(refused(&n, mode_of(SYMLINK), opts), ".git in any case is refused");
     s.reach();
 }
 /// (2) protect_ntfs: `.git` / `git~1` (any case) + T trailing bytes from {' ', '.'} [+ ':' + S arbitrary bytes]
-fn h_ntfs_dotgit<const SYMLINK: bool, const SHORT: bool, const T: usize, const STREAM: bool, const S_: usize, const N: usize, S: Src>(s: &mut S) {
+fn h_ntfs_dotgit<const OPTS: u8, const SYMLINK: bool, const SHORT: bool, const T: usize, const STREAM: bool, const S_: usize, const N: usize, S: Src>(s: &mut S) {
     let mut n = [0u8; N];
     let base: &[u8] = if SHORT { b"git~1" } else { b".git" };
     put_case(s, &mut n, 0, base);
@@ -47,7 +49,7 @@ fn h_ntfs_dotgit<const SYMLINK: bool, const SHORT: bool, const T: usize, const S
         let mut i = 0;
         while i < S_ { n[base.len() + T + 1 + i] = s.u8(); i += 1; }
     }
-    let opts = Options { protect_windows: s.bool(), protect_hfs: s.bool(), protect_ntfs: true };
+    let opts = opts_of(OPTS);
     assert!(refused(&n, mode_of(SYMLINK), opts), "NTFS .git look-alike is refused");
     s.reach();
 }
@@ -62,17 +64,17 @@ fn ignorable<S: Src>(s: &mut S) -> [u8; 3] {
         _ => [0xEF, 0xBB, 0xBF],                    // U+FEFF
     }
 }
-/// (3)/(4) protect_hfs: WORD (".git" or ".gitmodules") in any case with K ignorable code points inserted anywhere
-fn h_hfs<const MODULES: bool, const K: usize, const N: usize, S: Src>(s: &mut S) {
+/// (3)/(4) protect_hfs: WORD (".git" or ".gitmodules") in any case with K (0..=2) ignorable code points inserted
+/// before byte P1 and before byte P2 of the word (P == word length: at the end); positions are fixed per harness
+/// (symbolic positions make the UTF-8 decoder's byte offsets symbolic, which CBMC does not get through),
+/// the code points (16 choices each) and the case of every letter are symbolic
+fn h_hfs<const OPTS: u8, const MODULES: bool, const K: usize, const P1: usize, const P2: usize, const N: usize, S: Src>(s: &mut S) {
     let word: &[u8] = if MODULES { b".gitmodules" } else { b".git" };
     let mut n = [0u8; N];
-    // gap[j] = number of ignorables inserted before word[j] (j == word.len(): at the end); sum == K
-    let mut w = 0; let mut used = 0; let mut j = 0;
+    let mut w = 0; let mut j = 0;
     while j <= word.len() {
-        while used < K && s.bool() {
-            let ig = ignorable(s);
-            n[w] = ig[0]; n[w + 1] = ig[1]; n[w + 2] = ig[2]; w += 3; used += 1;
-        }
+        if K >= 1 && j == P1 { let ig = ignorable(s); n[w] = ig[0]; n[w + 1] = ig[1]; n[w + 2] = ig[2]; w += 3; }
+        if K >= 2 && j == P2 { let ig = ignorable(s); n[w] = ig[0]; n[w + 1] = ig[1]; n[w + 2] = ig[2]; w += 3; }
         if j < word.len() {
             let c = word[j];
             n[w] = if c.is_ascii_alphabetic() && s.bool() { c ^ 0x20 } else { c };
@@ -80,36 +82,36 @@ fn h_hfs<const MODULES: bool, const K: usize, const N: usize, S: Src>(s: &mut S)
         }
         j += 1;
     }
-    s.assume(used == K);
-    let opts = Options { protect_windows: s.bool(), protect_hfs: true, protect_ntfs: s.bool() };
+    assert!(w == N);
+    let opts = opts_of(OPTS);
     let mode = if MODULES { Some(Mode::Symlink) } else { None };
     assert!(refused(&n, mode, opts), "HFS look-alike with ignorable code points is refused");
     s.reach();
 }
 /// (4) protect_ntfs, symlink: `.gitmodules` (any case) + trailing {' ','.'}* [+ ':' + bytes]
-fn h_ntfs_modules<const T: usize, const STREAM: bool, const S_: usize, const N: usize, S: Src>(s: &mut S) {
+fn h_ntfs_modules<const OPTS: u8, const T: usize, const STREAM: bool, const S_: usize, const N: usize, S: Src>(s: &mut S) {
     let mut n = [0u8; N];
     put_case(s, &mut n, 0, b".gitmodules");
     put_space_dot(s, &mut n, 11, T);
     if STREAM { n[11 + T] = b':'; let mut i = 0; while i < S_ { n[12 + T + i] = s.u8(); i += 1; } }
-    let opts = Options { protect_windows: s.bool(), protect_hfs: s.bool(), protect_ntfs: true };
+    let opts = opts_of(OPTS);
     assert!(refused(&n, Some(Mode::Symlink), opts), "symlinked .gitmodules NTFS look-alike is refused");
     s.reach();
 }
 /// (4) protect_ntfs, symlink: 8.3 short names `gitmod~1`..`gitmod~4` (any case) + trailing
-fn h_ntfs_modules_short<const T: usize, const N: usize, S: Src>(s: &mut S) {
+fn h_ntfs_modules_short<const OPTS: u8, const T: usize, const N: usize, S: Src>(s: &mut S) {
     let mut n = [0u8; N];
     put_case(s, &mut n, 0, b"gitmod");
     n[6] = b'~';
     let d = s.u8(); s.assume(d >= b'1' && d <= b'4'); n[7] = d;
     put_space_dot(s, &mut n, 8, T);
-    let opts = Options { protect_windows: s.bool(), protect_hfs: s.bool(), protect_ntfs: true };
+    let opts = opts_of(OPTS);
     assert!(refused(&n, Some(Mode::Symlink), opts), "gitmod~N short name is refused for symlinks");
     s.reach();
 }
 /// (4) protect_ntfs, symlink: hashed short names per git's is_ntfs_dot_generic(): first P (<= 6) bytes of
 /// "gi7eba" in any case, '~', a digit 1-9, digits up to 8 bytes in total, then trailing {' ','.'}*
-fn h_ntfs_modules_hash<const T: usize, const N: usize, S: Src>(s: &mut S) {
+fn h_ntfs_modules_hash<const OPTS: u8, const T: usize, const N: usize, S: Src>(s: &mut S) {
     let mut n = [0u8; N];
     let p = s.usize();
     s.assume(p <= 6);
@@ -122,15 +124,14 @@ fn h_ntfs_modules_hash<const T: usize, const N: usize, S: Src>(s: &mut S) {
         i += 1;
     }
     put_space_dot(s, &mut n, 8, T);
-    let opts = Options { protect_windows: s.bool(), protect_hfs: s.bool(), protect_ntfs: true };
+    let opts = opts_of(OPTS);
     assert!(refused(&n, Some(Mode::Symlink), opts), "gi7eba~N hashed short name is refused for symlinks");
     s.reach();
 }
 /// (5) protect_windows + protect_ntfs: reserved device names in any case, then spaces, then end / '.' / ':' + bytes
-fn h_win_device<const SP: usize, const END: u8, const S_: usize, const N: usize, S: Src>(s: &mut S) {
+fn h_win_device<const OPTS: u8, const WHICH: u8, const SP: usize, const END: u8, const S_: usize, const N: usize, S: Src>(s: &mut S) {
     // END: 0 = end of name, 1 = '.', 2 = ':'
-    let which = s.u8();
-    s.assume(which < 8);
+    let which = WHICH;
     let mut n = [0u8; N];
     // all names padded into the same array: 3-letter names use N-?; the harness is instantiated per name length
     let (word, len): (&[u8], usize) = match which {
@@ -147,57 +148,208 @@ fn h_win_device<const SP: usize, const END: u8, const S_: usize, const N: usize,
     if END == 2 { n[w] = b':'; w += 1; }
     if END != 0 { i = 0; while i < S_ { n[w] = s.u8(); w += 1; i += 1; } }
     // the name occupies n[..w]; lengths differ per device, so validate the used prefix
-    let opts = Options { protect_windows: true, protect_hfs: s.bool(), protect_ntfs: true };
+    let opts = opts_of(OPTS);
     assert!(component(n[..w].as_bstr(), None, opts).is_err(), "Windows device name is refused");
     s.reach();
 }
 /// (6) separators and the empty component
-fn h_separators<const N: usize, S: Src>(s: &mut S) {
+fn h_separators<const OPTS: u8, const N: usize, S: Src>(s: &mut S) {
     let mut n: [u8; N] = s.bytes();
     let pos = s.usize();
     s.assume(pos < N);
-    let win = s.bool();
+    let win = OPTS & 1 != 0;
     n[pos] = if win && s.bool() { b'\\' } else { b'/' };
-    let opts = Options { protect_windows: win, protect_hfs: s.bool(), protect_ntfs: s.bool() };
+    let opts = opts_of(OPTS);
     assert!(refused(&n, None, opts), "a component containing a path separator is refused");
     assert!(component(b"".as_bstr(), None, opts).is_err(), "the empty component is refused");
     s.reach();
 }
 
-macro_rules! st { () => {} }
 harnesses! {
-    #[kani::proof] #[kani::unwind(14)] #[kani::stub(std::arch::x86_64::__cpuid_count, no_cpuid)] #[kani::stub(std::arch::x86_64::__cpuid, no_cpuid1)] dotgit_case => h_dotgit_case::<false, _>;
-    #[kani::proof] #[kani::unwind(14)] #[kani::stub(std::arch::x86_64::__cpuid_count, no_cpuid)] #[kani::stub(std::arch::x86_64::__cpuid, no_cpuid1)] dotgit_case_symlink => h_dotgit_case::<true, _>;
-    #[kani::proof] #[kani::unwind(14)] #[kani::stub(std::arch::x86_64::__cpuid_count, no_cpuid)] #[kani::stub(std::arch::x86_64::__cpuid, no_cpuid1)] ntfs_dotgit_t1_symlink => h_ntfs_dotgit::<true, false, 1, false, 0, 5, _>;
-    #[kani::proof] #[kani::unwind(14)] #[kani::stub(std::arch::x86_64::__cpuid_count, no_cpuid)] #[kani::stub(std::arch::x86_64::__cpuid, no_cpuid1)] ntfs_dotgit_t0 => h_ntfs_dotgit::<false, false, 0, false, 0, 4, _>;
-    #[kani::proof] #[kani::unwind(14)] #[kani::stub(std::arch::x86_64::__cpuid_count, no_cpuid)] #[kani::stub(std::arch::x86_64::__cpuid, no_cpuid1)] ntfs_dotgit_t1 => h_ntfs_dotgit::<false, false, 1, false, 0, 5, _>;
-    #[kani::proof] #[kani::unwind(14)] #[kani::stub(std::arch::x86_64::__cpuid_count, no_cpuid)] #[kani::stub(std::arch::x86_64::__cpuid, no_cpuid1)] ntfs_dotgit_t2 => h_ntfs_dotgit::<false, false, 2, false, 0, 6, _>;
-    #[kani::proof] #[kani::unwind(14)] #[kani::stub(std::arch::x86_64::__cpuid_count, no_cpuid)] #[kani::stub(std::arch::x86_64::__cpuid, no_cpuid1)] ntfs_dotgit_t3 => h_ntfs_dotgit::<false, false, 3, false, 0, 7, _>;
-    #[kani::proof] #[kani::unwind(14)] #[kani::stub(std::arch::x86_64::__cpuid_count, no_cpuid)] #[kani::stub(std::arch::x86_64::__cpuid, no_cpuid1)] ntfs_dotgit_t1_stream2 => h_ntfs_dotgit::<false, false, 1, true, 2, 8, _>;
-    #[kani::proof] #[kani::unwind(14)] #[kani::stub(std::arch::x86_64::__cpuid_count, no_cpuid)] #[kani::stub(std::arch::x86_64::__cpuid, no_cpuid1)] ntfs_dotgit_t0_stream1 => h_ntfs_dotgit::<false, false, 0, true, 1, 6, _>;
-    #[kani::proof] #[kani::unwind(14)] #[kani::stub(std::arch::x86_64::__cpuid_count, no_cpuid)] #[kani::stub(std::arch::x86_64::__cpuid, no_cpuid1)] ntfs_short_t0 => h_ntfs_dotgit::<false, true, 0, false, 0, 5, _>;
-    #[kani::proof] #[kani::unwind(14)] #[kani::stub(std::arch::x86_64::__cpuid_count, no_cpuid)] #[kani::stub(std::arch::x86_64::__cpuid, no_cpuid1)] ntfs_short_t2 => h_ntfs_dotgit::<false, true, 2, false, 0, 7, _>;
-    #[kani::proof] #[kani::unwind(14)] #[kani::stub(std::arch::x86_64::__cpuid_count, no_cpuid)] #[kani::stub(std::arch::x86_64::__cpuid, no_cpuid1)] ntfs_short_t1_stream1 => h_ntfs_dotgit::<false, true, 1, true, 1, 8, _>;
-    #[kani::proof] #[kani::unwind(14)] #[kani::stub(std::arch::x86_64::__cpuid_count, no_cpuid)] #[kani::stub(std::arch::x86_64::__cpuid, no_cpuid1)] ntfs_dotgit_t5 => h_ntfs_dotgit::<false, false, 5, false, 0, 9, _>;
-    #[kani::proof] #[kani::unwind(18)] #[kani::stub(std::arch::x86_64::__cpuid_count, no_cpuid)] #[kani::stub(std::arch::x86_64::__cpuid, no_cpuid1)] hfs_dotgit_k0 => h_hfs::<false, 0, 4, _>;
-    #[kani::proof] #[kani::unwind(18)] #[kani::stub(std::arch::x86_64::__cpuid_count, no_cpuid)] #[kani::stub(std::arch::x86_64::__cpuid, no_cpuid1)] hfs_dotgit_k1 => h_hfs::<false, 1, 7, _>;
-    #[kani::proof] #[kani::unwind(18)] #[kani::stub(std::arch::x86_64::__cpuid_count, no_cpuid)] #[kani::stub(std::arch::x86_64::__cpuid, no_cpuid1)] hfs_dotgit_k2 => h_hfs::<false, 2, 10, _>;
-    #[kani::proof] #[kani::unwind(22)] #[kani::stub(std::arch::x86_64::__cpuid_count, no_cpuid)] #[kani::stub(std::arch::x86_64::__cpuid, no_cpuid1)] hfs_dotgit_k3 => h_hfs::<false, 3, 13, _>;
-    #[kani::proof] #[kani::unwind(22)] #[kani::stub(std::arch::x86_64::__cpuid_count, no_cpuid)] #[kani::stub(std::arch::x86_64::__cpuid, no_cpuid1)] hfs_modules_k0 => h_hfs::<true, 0, 11, _>;
-    #[kani::proof] #[kani::unwind(22)] #[kani::stub(std::arch::x86_64::__cpuid_count, no_cpuid)] #[kani::stub(std::arch::x86_64::__cpuid, no_cpuid1)] hfs_modules_k1 => h_hfs::<true, 1, 14, _>;
-    #[kani::proof] #[kani::unwind(24)] #[kani::stub(std::arch::x86_64::__cpuid_count, no_cpuid)] #[kani::stub(std::arch::x86_64::__cpuid, no_cpuid1)] hfs_modules_k2 => h_hfs::<true, 2, 17, _>;
-    #[kani::proof] #[kani::unwind(22)] #[kani::stub(std::arch::x86_64::__cpuid_count, no_cpuid)] #[kani::stub(std::arch::x86_64::__cpuid, no_cpuid1)] ntfs_modules_t0 => h_ntfs_modules::<0, false, 0, 11, _>;
-    #[kani::proof] #[kani::unwind(22)] #[kani::stub(std::arch::x86_64::__cpuid_count, no_cpuid)] #[kani::stub(std::arch::x86_64::__cpuid, no_cpuid1)] ntfs_modules_t2 => h_ntfs_modules::<2, false, 0, 13, _>;
-    #[kani::proof] #[kani::unwind(22)] #[kani::stub(std::arch::x86_64::__cpuid_count, no_cpuid)] #[kani::stub(std::arch::x86_64::__cpuid, no_cpuid1)] ntfs_modules_t1_stream1 => h_ntfs_modules::<1, true, 1, 14, _>;
-    #[kani::proof] #[kani::unwind(22)] #[kani::stub(std::arch::x86_64::__cpuid_count, no_cpuid)] #[kani::stub(std::arch::x86_64::__cpuid, no_cpuid1)] ntfs_modules_short_t0 => h_ntfs_modules_short::<0, 8, _>;
-    #[kani::proof] #[kani::unwind(22)] #[kani::stub(std::arch::x86_64::__cpuid_count, no_cpuid)] #[kani::stub(std::arch::x86_64::__cpuid, no_cpuid1)] ntfs_modules_short_t2 => h_ntfs_modules_short::<2, 10, _>;
-    #[kani::proof] #[kani::unwind(22)] #[kani::stub(std::arch::x86_64::__cpuid_count, no_cpuid)] #[kani::stub(std::arch::x86_64::__cpuid, no_cpuid1)] ntfs_modules_hash_t0 => h_ntfs_modules_hash::<0, 8, _>;
-    #[kani::proof] #[kani::unwind(22)] #[kani::stub(std::arch::x86_64::__cpuid_count, no_cpuid)] #[kani::stub(std::arch::x86_64::__cpuid, no_cpuid1)] ntfs_modules_hash_t2 => h_ntfs_modules_hash::<2, 10, _>;
-    #[kani::proof] #[kani::unwind(16)] #[kani::stub(std::arch::x86_64::__cpuid_count, no_cpuid)] #[kani::stub(std::arch::x86_64::__cpuid, no_cpuid1)] win_device_end => h_win_device::<0, 0, 0, 12, _>;
-    #[kani::proof] #[kani::unwind(16)] #[kani::stub(std::arch::x86_64::__cpuid_count, no_cpuid)] #[kani::stub(std::arch::x86_64::__cpuid, no_cpuid1)] win_device_sp2_end => h_win_device::<2, 0, 0, 12, _>;
-    #[kani::proof] #[kani::unwind(16)] #[kani::stub(std::arch::x86_64::__cpuid_count, no_cpuid)] #[kani::stub(std::arch::x86_64::__cpuid, no_cpuid1)] win_device_dot2 => h_win_device::<0, 1, 2, 12, _>;
-    #[kani::proof] #[kani::unwind(16)] #[kani::stub(std::arch::x86_64::__cpuid_count, no_cpuid)] #[kani::stub(std::arch::x86_64::__cpuid, no_cpuid1)] win_device_sp1_colon2 => h_win_device::<1, 2, 2, 12, _>;
-    #[kani::proof] #[kani::unwind(16)] #[kani::stub(std::arch::x86_64::__cpuid_count, no_cpuid)] #[kani::stub(std::arch::x86_64::__cpuid, no_cpuid1)] separators_3 => h_separators::<3, _>;
+    #[kani::proof] #[kani::unwind(14)] #[kani::stub(std::arch::x86_64::__cpuid_count, no_cpuid)] #[kani::stub(std::arch::x86_64::__cpuid, no_cpuid1)] dotgit_case_o0 => h_dotgit_case::<0, false, _>;
+    #[kani::proof] #[kani::unwind(14)] #[kani::stub(std::arch::x86_64::__cpuid_count, no_cpuid)] #[kani::stub(std::arch::x86_64::__cpuid, no_cpuid1)] dotgit_case_o1 => h_dotgit_case::<1, false, _>;
+    #[kani::proof] #[kani::unwind(14)] #[kani::stub(std::arch::x86_64::__cpuid_count, no_cpuid)] #[kani::stub(std::arch::x86_64::__cpuid, no_cpuid1)] dotgit_case_o2 => h_dotgit_case::<2, false, _>;
+    #[kani::proof] #[kani::unwind(14)] #[kani::stub(std::arch::x86_64::__cpuid_count, no_cpuid)] #[kani::stub(std::arch::x86_64::__cpuid, no_cpuid1)] dotgit_case_o3 => h_dotgit_case::<3, false, _>;
+    #[kani::proof] #[kani::unwind(14)] #[kani::stub(std::arch::x86_64::__cpuid_count, no_cpuid)] #[kani::stub(std::arch::x86_64::__cpuid, no_cpuid1)] dotgit_case_o4 => h_dotgit_case::<4, false, _>;
+    #[kani::proof] #[kani::unwind(14)] #[kani::stub(std::arch::x86_64::__cpuid_count, no_cpuid)] #[kani::stub(std::arch::x86_64::__cpuid, no_cpuid1)] dotgit_case_o5 => h_dotgit_case::<5, false, _>;
+    #[kani::proof] #[kani::unwind(14)] #[kani::stub(std::arch::x86_64::__cpuid_count, no_cpuid)] #[kani::stub(std::arch::x86_64::__cpuid, no_cpuid1)] dotgit_case_o6 => h_dotgit_case::<6, false, _>;
+    #[kani::proof] #[kani::unwind(14)] #[kani::stub(std::arch::x86_64::__cpuid_count, no_cpuid)] #[kani::stub(std::arch::x86_64::__cpuid, no_cpuid1)] dotgit_case_o7 => h_dotgit_case::<7, false, _>;
+    #[kani::proof] #[kani::unwind(14)] #[kani::stub(std::arch::x86_64::__cpuid_count, no_cpuid)] #[kani::stub(std::arch::x86_64::__cpuid, no_cpuid1)] dotgit_case_symlink_o7 => h_dotgit_case::<7, true, _>;
+    #[kani::proof] #[kani::unwind(14)] #[kani::stub(std::arch::x86_64::__cpuid_count, no_cpuid)] #[kani::stub(std::arch::x86_64::__cpuid, no_cpuid1)] ntfs_dotgit_t0_o4 => h_ntfs_dotgit::<4, false, false, 0, false, 0, 4, _>;
+    #[kani::proof] #[kani::unwind(14)] #[kani::stub(std::arch::x86_64::__cpuid_count, no_cpuid)] #[kani::stub(std::arch::x86_64::__cpuid, no_cpuid1)] ntfs_dotgit_t0_o5 => h_ntfs_dotgit::<5, false, false, 0, false, 0, 4, _>;
+    #[kani::proof] #[kani::unwind(14)] #[kani::stub(std::arch::x86_64::__cpuid_count, no_cpuid)] #[kani::stub(std::arch::x86_64::__cpuid, no_cpuid1)] ntfs_dotgit_t0_o6 => h_ntfs_dotgit::<6, false, false, 0, false, 0, 4, _>;
+    #[kani::proof] #[kani::unwind(14)] #[kani::stub(std::arch::x86_64::__cpuid_count, no_cpuid)] #[kani::stub(std::arch::x86_64::__cpuid, no_cpuid1)] ntfs_dotgit_t0_o7 => h_ntfs_dotgit::<7, false, false, 0, false, 0, 4, _>;
+    #[kani::proof] #[kani::unwind(14)] #[kani::stub(std::arch::x86_64::__cpuid_count, no_cpuid)] #[kani::stub(std::arch::x86_64::__cpuid, no_cpuid1)] ntfs_dotgit_t1_o4 => h_ntfs_dotgit::<4, false, false, 1, false, 0, 5, _>;
+    #[kani::proof] #[kani::unwind(14)] #[kani::stub(std::arch::x86_64::__cpuid_count, no_cpuid)] #[kani::stub(std::arch::x86_64::__cpuid, no_cpuid1)] ntfs_dotgit_t1_o5 => h_ntfs_dotgit::<5, false, false, 1, false, 0, 5, _>;
+    #[kani::proof] #[kani::unwind(14)] #[kani::stub(std::arch::x86_64::__cpuid_count, no_cpuid)] #[kani::stub(std::arch::x86_64::__cpuid, no_cpuid1)] ntfs_dotgit_t1_o6 => h_ntfs_dotgit::<6, false, false, 1, false, 0, 5, _>;
+    #[kani::proof] #[kani::unwind(14)] #[kani::stub(std::arch::x86_64::__cpuid_count, no_cpuid)] #[kani::stub(std::arch::x86_64::__cpuid, no_cpuid1)] ntfs_dotgit_t1_o7 => h_ntfs_dotgit::<7, false, false, 1, false, 0, 5, _>;
+    #[kani::proof] #[kani::unwind(14)] #[kani::stub(std::arch::x86_64::__cpuid_count, no_cpuid)] #[kani::stub(std::arch::x86_64::__cpuid, no_cpuid1)] ntfs_dotgit_t2_o4 => h_ntfs_dotgit::<4, false, false, 2, false, 0, 6, _>;
+    #[kani::proof] #[kani::unwind(14)] #[kani::stub(std::arch::x86_64::__cpuid_count, no_cpuid)] #[kani::stub(std::arch::x86_64::__cpuid, no_cpuid1)] ntfs_dotgit_t2_o5 => h_ntfs_dotgit::<5, false, false, 2, false, 0, 6, _>;
+    #[kani::proof] #[kani::unwind(14)] #[kani::stub(std::arch::x86_64::__cpuid_count, no_cpuid)] #[kani::stub(std::arch::x86_64::__cpuid, no_cpuid1)] ntfs_dotgit_t2_o6 => h_ntfs_dotgit::<6, false, false, 2, false, 0, 6, _>;
+    #[kani::proof] #[kani::unwind(14)] #[kani::stub(std::arch::x86_64::__cpuid_count, no_cpuid)] #[kani::stub(std::arch::x86_64::__cpuid, no_cpuid1)] ntfs_dotgit_t2_o7 => h_ntfs_dotgit::<7, false, false, 2, false, 0, 6, _>;
+    #[kani::proof] #[kani::unwind(14)] #[kani::stub(std::arch::x86_64::__cpuid_count, no_cpuid)] #[kani::stub(std::arch::x86_64::__cpuid, no_cpuid1)] ntfs_dotgit_t3_o4 => h_ntfs_dotgit::<4, false, false, 3, false, 0, 7, _>;
+    #[kani::proof] #[kani::unwind(14)] #[kani::stub(std::arch::x86_64::__cpuid_count, no_cpuid)] #[kani::stub(std::arch::x86_64::__cpuid, no_cpuid1)] ntfs_dotgit_t3_o5 => h_ntfs_dotgit::<5, false, false, 3, false, 0, 7, _>;
+    #[kani::proof] #[kani::unwind(14)] #[kani::stub(std::arch::x86_64::__cpuid_count, no_cpuid)] #[kani::stub(std::arch::x86_64::__cpuid, no_cpuid1)] ntfs_dotgit_t3_o6 => h_ntfs_dotgit::<6, false, false, 3, false, 0, 7, _>;
+    #[kani::proof] #[kani::unwind(14)] #[kani::stub(std::arch::x86_64::__cpuid_count, no_cpuid)] #[kani::stub(std::arch::x86_64::__cpuid, no_cpuid1)] ntfs_dotgit_t3_o7 => h_ntfs_dotgit::<7, false, false, 3, false, 0, 7, _>;
+    #[kani::proof] #[kani::unwind(14)] #[kani::stub(std::arch::x86_64::__cpuid_count, no_cpuid)] #[kani::stub(std::arch::x86_64::__cpuid, no_cpuid1)] ntfs_dotgit_t5_o4 => h_ntfs_dotgit::<4, false, false, 5, false, 0, 9, _>;
+    #[kani::proof] #[kani::unwind(14)] #[kani::stub(std::arch::x86_64::__cpuid_count, no_cpuid)] #[kani::stub(std::arch::x86_64::__cpuid, no_cpuid1)] ntfs_dotgit_t5_o5 => h_ntfs_dotgit::<5, false, false, 5, false, 0, 9, _>;
+    #[kani::proof] #[kani::unwind(14)] #[kani::stub(std::arch::x86_64::__cpuid_count, no_cpuid)] #[kani::stub(std::arch::x86_64::__cpuid, no_cpuid1)] ntfs_dotgit_t5_o6 => h_ntfs_dotgit::<6, false, false, 5, false, 0, 9, _>;
+    #[kani::proof] #[kani::unwind(14)] #[kani::stub(std::arch::x86_64::__cpuid_count, no_cpuid)] #[kani::stub(std::arch::x86_64::__cpuid, no_cpuid1)] ntfs_dotgit_t5_o7 => h_ntfs_dotgit::<7, false, false, 5, false, 0, 9, _>;
+    #[kani::proof] #[kani::unwind(14)] #[kani::stub(std::arch::x86_64::__cpuid_count, no_cpuid)] #[kani::stub(std::arch::x86_64::__cpuid, no_cpuid1)] ntfs_dotgit_t0_stream1_o4 => h_ntfs_dotgit::<4, false, false, 0, true, 1, 6, _>;
+    #[kani::proof] #[kani::unwind(14)] #[kani::stub(std::arch::x86_64::__cpuid_count, no_cpuid)] #[kani::stub(std::arch::x86_64::__cpuid, no_cpuid1)] ntfs_dotgit_t0_stream1_o5 => h_ntfs_dotgit::<5, false, false, 0, true, 1, 6, _>;
+    #[kani::proof] #[kani::unwind(14)] #[kani::stub(std::arch::x86_64::__cpuid_count, no_cpuid)] #[kani::stub(std::arch::x86_64::__cpuid, no_cpuid1)] ntfs_dotgit_t0_stream1_o6 => h_ntfs_dotgit::<6, false, false, 0, true, 1, 6, _>;
+    #[kani::proof] #[kani::unwind(14)] #[kani::stub(std::arch::x86_64::__cpuid_count, no_cpuid)] #[kani::stub(std::arch::x86_64::__cpuid, no_cpuid1)] ntfs_dotgit_t0_stream1_o7 => h_ntfs_dotgit::<7, false, false, 0, true, 1, 6, _>;
+    #[kani::proof] #[kani::unwind(14)] #[kani::stub(std::arch::x86_64::__cpuid_count, no_cpuid)] #[kani::stub(std::arch::x86_64::__cpuid, no_cpuid1)] ntfs_dotgit_t1_stream2_o4 => h_ntfs_dotgit::<4, false, false, 1, true, 2, 8, _>;
+    #[kani::proof] #[kani::unwind(14)] #[kani::stub(std::arch::x86_64::__cpuid_count, no_cpuid)] #[kani::stub(std::arch::x86_64::__cpuid, no_cpuid1)] ntfs_dotgit_t1_stream2_o5 => h_ntfs_dotgit::<5, false, false, 1, true, 2, 8, _>;
+    #[kani::proof] #[kani::unwind(14)] #[kani::stub(std::arch::x86_64::__cpuid_count, no_cpuid)] #[kani::stub(std::arch::x86_64::__cpuid, no_cpuid1)] ntfs_dotgit_t1_stream2_o6 => h_ntfs_dotgit::<6, false, false, 1, true, 2, 8, _>;
+    #[kani::proof] #[kani::unwind(14)] #[kani::stub(std::arch::x86_64::__cpuid_count, no_cpuid)] #[kani::stub(std::arch::x86_64::__cpuid, no_cpuid1)] ntfs_dotgit_t1_stream2_o7 => h_ntfs_dotgit::<7, false, false, 1, true, 2, 8, _>;
+    #[kani::proof] #[kani::unwind(14)] #[kani::stub(std::arch::x86_64::__cpuid_count, no_cpuid)] #[kani::stub(std::arch::x86_64::__cpuid, no_cpuid1)] ntfs_dotgit_short_t0_o4 => h_ntfs_dotgit::<4, false, true, 0, false, 0, 5, _>;
+    #[kani::proof] #[kani::unwind(14)] #[kani::stub(std::arch::x86_64::__cpuid_count, no_cpuid)] #[kani::stub(std::arch::x86_64::__cpuid, no_cpuid1)] ntfs_dotgit_short_t0_o5 => h_ntfs_dotgit::<5, false, true, 0, false, 0, 5, _>;
+    #[kani::proof] #[kani::unwind(14)] #[kani::stub(std::arch::x86_64::__cpuid_count, no_cpuid)] #[kani::stub(std::arch::x86_64::__cpuid, no_cpuid1)] ntfs_dotgit_short_t0_o6 => h_ntfs_dotgit::<6, false, true, 0, false, 0, 5, _>;
+    #[kani::proof] #[kani::unwind(14)] #[kani::stub(std::arch::x86_64::__cpuid_count, no_cpuid)] #[kani::stub(std::arch::x86_64::__cpuid, no_cpuid1)] ntfs_dotgit_short_t0_o7 => h_ntfs_dotgit::<7, false, true, 0, false, 0, 5, _>;
+    #[kani::proof] #[kani::unwind(14)] #[kani::stub(std::arch::x86_64::__cpuid_count, no_cpuid)] #[kani::stub(std::arch::x86_64::__cpuid, no_cpuid1)] ntfs_dotgit_short_t2_o4 => h_ntfs_dotgit::<4, false, true, 2, false, 0, 7, _>;
+    #[kani::proof] #[kani::unwind(14)] #[kani::stub(std::arch::x86_64::__cpuid_count, no_cpuid)] #[kani::stub(std::arch::x86_64::__cpuid, no_cpuid1)] ntfs_dotgit_short_t2_o5 => h_ntfs_dotgit::<5, false, true, 2, false, 0, 7, _>;
+    #[kani::proof] #[kani::unwind(14)] #[kani::stub(std::arch::x86_64::__cpuid_count, no_cpuid)] #[kani::stub(std::arch::x86_64::__cpuid, no_cpuid1)] ntfs_dotgit_short_t2_o6 => h_ntfs_dotgit::<6, false, true, 2, false, 0, 7, _>;
+    #[kani::proof] #[kani::unwind(14)] #[kani::stub(std::arch::x86_64::__cpuid_count, no_cpuid)] #[kani::stub(std::arch::x86_64::__cpuid, no_cpuid1)] ntfs_dotgit_short_t2_o7 => h_ntfs_dotgit::<7, false, true, 2, false, 0, 7, _>;
+    #[kani::proof] #[kani::unwind(14)] #[kani::stub(std::arch::x86_64::__cpuid_count, no_cpuid)] #[kani::stub(std::arch::x86_64::__cpuid, no_cpuid1)] ntfs_dotgit_short_t1_stream1_o4 => h_ntfs_dotgit::<4, false, true, 1, true, 1, 8, _>;
+    #[kani::proof] #[kani::unwind(14)] #[kani::stub(std::arch::x86_64::__cpuid_count, no_cpuid)] #[kani::stub(std::arch::x86_64::__cpuid, no_cpuid1)] ntfs_dotgit_short_t1_stream1_o5 => h_ntfs_dotgit::<5, false, true, 1, true, 1, 8, _>;
+    #[kani::proof] #[kani::unwind(14)] #[kani::stub(std::arch::x86_64::__cpuid_count, no_cpuid)] #[kani::stub(std::arch::x86_64::__cpuid, no_cpuid1)] ntfs_dotgit_short_t1_stream1_o6 => h_ntfs_dotgit::<6, false, true, 1, true, 1, 8, _>;
+    #[kani::proof] #[kani::unwind(14)] #[kani::stub(std::arch::x86_64::__cpuid_count, no_cpuid)] #[kani::stub(std::arch::x86_64::__cpuid, no_cpuid1)] ntfs_dotgit_short_t1_stream1_o7 => h_ntfs_dotgit::<7, false, true, 1, true, 1, 8, _>;
+    #[kani::proof] #[kani::unwind(14)] #[kani::stub(std::arch::x86_64::__cpuid_count, no_cpuid)] #[kani::stub(std::arch::x86_64::__cpuid, no_cpuid1)] ntfs_dotgit_t1_symlink_o4 => h_ntfs_dotgit::<4, true, false, 1, false, 0, 5, _>;
+    #[kani::proof] #[kani::unwind(18)] #[kani::stub(std::arch::x86_64::__cpuid_count, no_cpuid)] #[kani::stub(std::arch::x86_64::__cpuid, no_cpuid1)] hfs_dotgit_k0_o2 => h_hfs::<2, false, 0, 0, 0, 4, _>;
+    #[kani::proof] #[kani::unwind(20)] #[kani::stub(std::arch::x86_64::__cpuid_count, no_cpuid)] #[kani::stub(std::arch::x86_64::__cpuid, no_cpuid1)] hfs_dotgit_k1_p0_o2 => h_hfs::<2, false, 1, 0, 0, 7, _>;
+    #[kani::proof] #[kani::unwind(20)] #[kani::stub(std::arch::x86_64::__cpuid_count, no_cpuid)] #[kani::stub(std::arch::x86_64::__cpuid, no_cpuid1)] hfs_dotgit_k1_p1_o2 => h_hfs::<2, false, 1, 1, 0, 7, _>;
+    #[kani::proof] #[kani::unwind(20)] #[kani::stub(std::arch::x86_64::__cpuid_count, no_cpuid)] #[kani::stub(std::arch::x86_64::__cpuid, no_cpuid1)] hfs_dotgit_k1_p2_o2 => h_hfs::<2, false, 1, 2, 0, 7, _>;
+    #[kani::proof] #[kani::unwind(20)] #[kani::stub(std::arch::x86_64::__cpuid_count, no_cpuid)] #[kani::stub(std::arch::x86_64::__cpuid, no_cpuid1)] hfs_dotgit_k1_p3_o2 => h_hfs::<2, false, 1, 3, 0, 7, _>;
+    #[kani::proof] #[kani::unwind(20)] #[kani::stub(std::arch::x86_64::__cpuid_count, no_cpuid)] #[kani::stub(std::arch::x86_64::__cpuid, no_cpuid1)] hfs_dotgit_k1_p4_o2 => h_hfs::<2, false, 1, 4, 0, 7, _>;
+    #[kani::proof] #[kani::unwind(18)] #[kani::stub(std::arch::x86_64::__cpuid_count, no_cpuid)] #[kani::stub(std::arch::x86_64::__cpuid, no_cpuid1)] hfs_dotgit_k0_o3 => h_hfs::<3, false, 0, 0, 0, 4, _>;
+    #[kani::proof] #[kani::unwind(20)] #[kani::stub(std::arch::x86_64::__cpuid_count, no_cpuid)] #[kani::stub(std::arch::x86_64::__cpuid, no_cpuid1)] hfs_dotgit_k1_p0_o3 => h_hfs::<3, false, 1, 0, 0, 7, _>;
+    #[kani::proof] #[kani::unwind(20)] #[kani::stub(std::arch::x86_64::__cpuid_count, no_cpuid)] #[kani::stub(std::arch::x86_64::__cpuid, no_cpuid1)] hfs_dotgit_k1_p1_o3 => h_hfs::<3, false, 1, 1, 0, 7, _>;
+    #[kani::proof] #[kani::unwind(20)] #[kani::stub(std::arch::x86_64::__cpuid_count, no_cpuid)] #[kani::stub(std::arch::x86_64::__cpuid, no_cpuid1)] hfs_dotgit_k1_p2_o3 => h_hfs::<3, false, 1, 2, 0, 7, _>;
+    #[kani::proof] #[kani::unwind(20)] #[kani::stub(std::arch::x86_64::__cpuid_count, no_cpuid)] #[kani::stub(std::arch::x86_64::__cpuid, no_cpuid1)] hfs_dotgit_k1_p3_o3 => h_hfs::<3, false, 1, 3, 0, 7, _>;
+    #[kani::proof] #[kani::unwind(20)] #[kani::stub(std::arch::x86_64::__cpuid_count, no_cpuid)] #[kani::stub(std::arch::x86_64::__cpuid, no_cpuid1)] hfs_dotgit_k1_p4_o3 => h_hfs::<3, false, 1, 4, 0, 7, _>;
+    #[kani::proof] #[kani::unwind(18)] #[kani::stub(std::arch::x86_64::__cpuid_count, no_cpuid)] #[kani::stub(std::arch::x86_64::__cpuid, no_cpuid1)] hfs_dotgit_k0_o6 => h_hfs::<6, false, 0, 0, 0, 4, _>;
+    #[kani::proof] #[kani::unwind(20)] #[kani::stub(std::arch::x86_64::__cpuid_count, no_cpuid)] #[kani::stub(std::arch::x86_64::__cpuid, no_cpuid1)] hfs_dotgit_k1_p0_o6 => h_hfs::<6, false, 1, 0, 0, 7, _>;
+    #[kani::proof] #[kani::unwind(20)] #[kani::stub(std::arch::x86_64::__cpuid_count, no_cpuid)] #[kani::stub(std::arch::x86_64::__cpuid, no_cpuid1)] hfs_dotgit_k1_p1_o6 => h_hfs::<6, false, 1, 1, 0, 7, _>;
+    #[kani::proof] #[kani::unwind(20)] #[kani::stub(std::arch::x86_64::__cpuid_count, no_cpuid)] #[kani::stub(std::arch::x86_64::__cpuid, no_cpuid1)] hfs_dotgit_k1_p2_o6 => h_hfs::<6, false, 1, 2, 0, 7, _>;
+    #[kani::proof] #[kani::unwind(20)] #[kani::stub(std::arch::x86_64::__cpuid_count, no_cpuid)] #[kani::stub(std::arch::x86_64::__cpuid, no_cpuid1)] hfs_dotgit_k1_p3_o6 => h_hfs::<6, false, 1, 3, 0, 7, _>;
+    #[kani::proof] #[kani::unwind(20)] #[kani::stub(std::arch::x86_64::__cpuid_count, no_cpuid)] #[kani::stub(std::arch::x86_64::__cpuid, no_cpuid1)] hfs_dotgit_k1_p4_o6 => h_hfs::<6, false, 1, 4, 0, 7, _>;
+    #[kani::proof] #[kani::unwind(18)] #[kani::stub(std::arch::x86_64::__cpuid_count, no_cpuid)] #[kani::stub(std::arch::x86_64::__cpuid, no_cpuid1)] hfs_dotgit_k0_o7 => h_hfs::<7, false, 0, 0, 0, 4, _>;
+    #[kani::proof] #[kani::unwind(20)] #[kani::stub(std::arch::x86_64::__cpuid_count, no_cpuid)] #[kani::stub(std::arch::x86_64::__cpuid, no_cpuid1)] hfs_dotgit_k1_p0_o7 => h_hfs::<7, false, 1, 0, 0, 7, _>;
+    #[kani::proof] #[kani::unwind(20)] #[kani::stub(std::arch::x86_64::__cpuid_count, no_cpuid)] #[kani::stub(std::arch::x86_64::__cpuid, no_cpuid1)] hfs_dotgit_k1_p1_o7 => h_hfs::<7, false, 1, 1, 0, 7, _>;
+    #[kani::proof] #[kani::unwind(20)] #[kani::stub(std::arch::x86_64::__cpuid_count, no_cpuid)] #[kani::stub(std::arch::x86_64::__cpuid, no_cpuid1)] hfs_dotgit_k1_p2_o7 => h_hfs::<7, false, 1, 2, 0, 7, _>;
+    #[kani::proof] #[kani::unwind(20)] #[kani::stub(std::arch::x86_64::__cpuid_count, no_cpuid)] #[kani::stub(std::arch::x86_64::__cpuid, no_cpuid1)] hfs_dotgit_k1_p3_o7 => h_hfs::<7, false, 1, 3, 0, 7, _>;
+    #[kani::proof] #[kani::unwind(20)] #[kani::stub(std::arch::x86_64::__cpuid_count, no_cpuid)] #[kani::stub(std::arch::x86_64::__cpuid, no_cpuid1)] hfs_dotgit_k1_p4_o7 => h_hfs::<7, false, 1, 4, 0, 7, _>;
+    #[kani::proof] #[kani::unwind(24)] #[kani::stub(std::arch::x86_64::__cpuid_count, no_cpuid)] #[kani::stub(std::arch::x86_64::__cpuid, no_cpuid1)] hfs_dotgit_k2_p0_0_o2 => h_hfs::<2, false, 2, 0, 0, 10, _>;
+    #[kani::proof] #[kani::unwind(24)] #[kani::stub(std::arch::x86_64::__cpuid_count, no_cpuid)] #[kani::stub(std::arch::x86_64::__cpuid, no_cpuid1)] hfs_dotgit_k2_p0_1_o2 => h_hfs::<2, false, 2, 0, 1, 10, _>;
+    #[kani::proof] #[kani::unwind(24)] #[kani::stub(std::arch::x86_64::__cpuid_count, no_cpuid)] #[kani::stub(std::arch::x86_64::__cpuid, no_cpuid1)] hfs_dotgit_k2_p0_2_o2 => h_hfs::<2, false, 2, 0, 2, 10, _>;
+    #[kani::proof] #[kani::unwind(24)] #[kani::stub(std::arch::x86_64::__cpuid_count, no_cpuid)] #[kani::stub(std::arch::x86_64::__cpuid, no_cpuid1)] hfs_dotgit_k2_p0_3_o2 => h_hfs::<2, false, 2, 0, 3, 10, _>;
+    #[kani::proof] #[kani::unwind(24)] #[kani::stub(std::arch::x86_64::__cpuid_count, no_cpuid)] #[kani::stub(std::arch::x86_64::__cpuid, no_cpuid1)] hfs_dotgit_k2_p0_4_o2 => h_hfs::<2, false, 2, 0, 4, 10, _>;
+    #[kani::proof] #[kani::unwind(24)] #[kani::stub(std::arch::x86_64::__cpuid_count, no_cpuid)] #[kani::stub(std::arch::x86_64::__cpuid, no_cpuid1)] hfs_dotgit_k2_p1_1_o2 => h_hfs::<2, false, 2, 1, 1, 10, _>;
+    #[kani::proof] #[kani::unwind(24)] #[kani::stub(std::arch::x86_64::__cpuid_count, no_cpuid)] #[kani::stub(std::arch::x86_64::__cpuid, no_cpuid1)] hfs_dotgit_k2_p1_2_o2 => h_hfs::<2, false, 2, 1, 2, 10, _>;
+    #[kani::proof] #[kani::unwind(24)] #[kani::stub(std::arch::x86_64::__cpuid_count, no_cpuid)] #[kani::stub(std::arch::x86_64::__cpuid, no_cpuid1)] hfs_dotgit_k2_p1_3_o2 => h_hfs::<2, false, 2, 1, 3, 10, _>;
+    #[kani::proof] #[kani::unwind(24)] #[kani::stub(std::arch::x86_64::__cpuid_count, no_cpuid)] #[kani::stub(std::arch::x86_64::__cpuid, no_cpuid1)] hfs_dotgit_k2_p1_4_o2 => h_hfs::<2, false, 2, 1, 4, 10, _>;
+    #[kani::proof] #[kani::unwind(24)] #[kani::stub(std::arch::x86_64::__cpuid_count, no_cpuid)] #[kani::stub(std::arch::x86_64::__cpuid, no_cpuid1)] hfs_dotgit_k2_p2_2_o2 => h_hfs::<2, false, 2, 2, 2, 10, _>;
+    #[kani::proof] #[kani::unwind(24)] #[kani::stub(std::arch::x86_64::__cpuid_count, no_cpuid)] #[kani::stub(std::arch::x86_64::__cpuid, no_cpuid1)] hfs_dotgit_k2_p2_3_o2 => h_hfs::<2, false, 2, 2, 3, 10, _>;
+    #[kani::proof] #[kani::unwind(24)] #[kani::stub(std::arch::x86_64::__cpuid_count, no_cpuid)] #[kani::stub(std::arch::x86_64::__cpuid, no_cpuid1)] hfs_dotgit_k2_p2_4_o2 => h_hfs::<2, false, 2, 2, 4, 10, _>;
+    #[kani::proof] #[kani::unwind(24)] #[kani::stub(std::arch::x86_64::__cpuid_count, no_cpuid)] #[kani::stub(std::arch::x86_64::__cpuid, no_cpuid1)] hfs_dotgit_k2_p3_3_o2 => h_hfs::<2, false, 2, 3, 3, 10, _>;
+    #[kani::proof] #[kani::unwind(24)] #[kani::stub(std::arch::x86_64::__cpuid_count, no_cpuid)] #[kani::stub(std::arch::x86_64::__cpuid, no_cpuid1)] hfs_dotgit_k2_p3_4_o2 => h_hfs::<2, false, 2, 3, 4, 10, _>;
+    #[kani::proof] #[kani::unwind(24)] #[kani::stub(std::arch::x86_64::__cpuid_count, no_cpuid)] #[kani::stub(std::arch::x86_64::__cpuid, no_cpuid1)] hfs_dotgit_k2_p4_4_o2 => h_hfs::<2, false, 2, 4, 4, 10, _>;
+    #[kani::proof] #[kani::unwind(26)] #[kani::stub(std::arch::x86_64::__cpuid_count, no_cpuid)] #[kani::stub(std::arch::x86_64::__cpuid, no_cpuid1)] hfs_modules_k0_o2 => h_hfs::<2, true, 0, 0, 0, 11, _>;
+    #[kani::proof] #[kani::unwind(26)] #[kani::stub(std::arch::x86_64::__cpuid_count, no_cpuid)] #[kani::stub(std::arch::x86_64::__cpuid, no_cpuid1)] hfs_modules_k0_o7 => h_hfs::<7, true, 0, 0, 0, 11, _>;
+    #[kani::proof] #[kani::unwind(30)] #[kani::stub(std::arch::x86_64::__cpuid_count, no_cpuid)] #[kani::stub(std::arch::x86_64::__cpuid, no_cpuid1)] hfs_modules_k1_p0_o2 => h_hfs::<2, true, 1, 0, 0, 14, _>;
+    #[kani::proof] #[kani::unwind(30)] #[kani::stub(std::arch::x86_64::__cpuid_count, no_cpuid)] #[kani::stub(std::arch::x86_64::__cpuid, no_cpuid1)] hfs_modules_k1_p1_o2 => h_hfs::<2, true, 1, 1, 0, 14, _>;
+    #[kani::proof] #[kani::unwind(30)] #[kani::stub(std::arch::x86_64::__cpuid_count, no_cpuid)] #[kani::stub(std::arch::x86_64::__cpuid, no_cpuid1)] hfs_modules_k1_p2_o2 => h_hfs::<2, true, 1, 2, 0, 14, _>;
+    #[kani::proof] #[kani::unwind(30)] #[kani::stub(std::arch::x86_64::__cpuid_count, no_cpuid)] #[kani::stub(std::arch::x86_64::__cpuid, no_cpuid1)] hfs_modules_k1_p3_o2 => h_hfs::<2, true, 1, 3, 0, 14, _>;
+    #[kani::proof] #[kani::unwind(30)] #[kani::stub(std::arch::x86_64::__cpuid_count, no_cpuid)] #[kani::stub(std::arch::x86_64::__cpuid, no_cpuid1)] hfs_modules_k1_p4_o2 => h_hfs::<2, true, 1, 4, 0, 14, _>;
+    #[kani::proof] #[kani::unwind(30)] #[kani::stub(std::arch::x86_64::__cpuid_count, no_cpuid)] #[kani::stub(std::arch::x86_64::__cpuid, no_cpuid1)] hfs_modules_k1_p5_o2 => h_hfs::<2, true, 1, 5, 0, 14, _>;
+    #[kani::proof] #[kani::unwind(30)] #[kani::stub(std::arch::x86_64::__cpuid_count, no_cpuid)] #[kani::stub(std::arch::x86_64::__cpuid, no_cpuid1)] hfs_modules_k1_p6_o2 => h_hfs::<2, true, 1, 6, 0, 14, _>;
+    #[kani::proof] #[kani::unwind(30)] #[kani::stub(std::arch::x86_64::__cpuid_count, no_cpuid)] #[kani::stub(std::arch::x86_64::__cpuid, no_cpuid1)] hfs_modules_k1_p7_o2 => h_hfs::<2, true, 1, 7, 0, 14, _>;
+    #[kani::proof] #[kani::unwind(30)] #[kani::stub(std::arch::x86_64::__cpuid_count, no_cpuid)] #[kani::stub(std::arch::x86_64::__cpuid, no_cpuid1)] hfs_modules_k1_p8_o2 => h_hfs::<2, true, 1, 8, 0, 14, _>;
+    #[kani::proof] #[kani::unwind(30)] #[kani::stub(std::arch::x86_64::__cpuid_count, no_cpuid)] #[kani::stub(std::arch::x86_64::__cpuid, no_cpuid1)] hfs_modules_k1_p9_o2 => h_hfs::<2, true, 1, 9, 0, 14, _>;
+    #[kani::proof] #[kani::unwind(30)] #[kani::stub(std::arch::x86_64::__cpuid_count, no_cpuid)] #[kani::stub(std::arch::x86_64::__cpuid, no_cpuid1)] hfs_modules_k1_p10_o2 => h_hfs::<2, true, 1, 10, 0, 14, _>;
+    #[kani::proof] #[kani::unwind(30)] #[kani::stub(std::arch::x86_64::__cpuid_count, no_cpuid)] #[kani::stub(std::arch::x86_64::__cpuid, no_cpuid1)] hfs_modules_k1_p11_o2 => h_hfs::<2, true, 1, 11, 0, 14, _>;
+    #[kani::proof] #[kani::unwind(22)] #[kani::stub(std::arch::x86_64::__cpuid_count, no_cpuid)] #[kani::stub(std::arch::x86_64::__cpuid, no_cpuid1)] ntfs_modules_t0_o4 => h_ntfs_modules::<4, 0, false, 0, 11, _>;
+    #[kani::proof] #[kani::unwind(22)] #[kani::stub(std::arch::x86_64::__cpuid_count, no_cpuid)] #[kani::stub(std::arch::x86_64::__cpuid, no_cpuid1)] ntfs_modules_t0_o7 => h_ntfs_modules::<7, 0, false, 0, 11, _>;
+    #[kani::proof] #[kani::unwind(22)] #[kani::stub(std::arch::x86_64::__cpuid_count, no_cpuid)] #[kani::stub(std::arch::x86_64::__cpuid, no_cpuid1)] ntfs_modules_t2_o4 => h_ntfs_modules::<4, 2, false, 0, 13, _>;
+    #[kani::proof] #[kani::unwind(22)] #[kani::stub(std::arch::x86_64::__cpuid_count, no_cpuid)] #[kani::stub(std::arch::x86_64::__cpuid, no_cpuid1)] ntfs_modules_t2_o7 => h_ntfs_modules::<7, 2, false, 0, 13, _>;
+    #[kani::proof] #[kani::unwind(22)] #[kani::stub(std::arch::x86_64::__cpuid_count, no_cpuid)] #[kani::stub(std::arch::x86_64::__cpuid, no_cpuid1)] ntfs_modules_t1_stream1_o4 => h_ntfs_modules::<4, 1, true, 1, 14, _>;
+    #[kani::proof] #[kani::unwind(22)] #[kani::stub(std::arch::x86_64::__cpuid_count, no_cpuid)] #[kani::stub(std::arch::x86_64::__cpuid, no_cpuid1)] ntfs_modules_t1_stream1_o7 => h_ntfs_modules::<7, 1, true, 1, 14, _>;
+    #[kani::proof] #[kani::unwind(22)] #[kani::stub(std::arch::x86_64::__cpuid_count, no_cpuid)] #[kani::stub(std::arch::x86_64::__cpuid, no_cpuid1)] ntfs_modules_short_t0_o4 => h_ntfs_modules_short::<4, 0, 8, _>;
+    #[kani::proof] #[kani::unwind(22)] #[kani::stub(std::arch::x86_64::__cpuid_count, no_cpuid)] #[kani::stub(std::arch::x86_64::__cpuid, no_cpuid1)] ntfs_modules_hash_t0_o4 => h_ntfs_modules_hash::<4, 0, 8, _>;
+    #[kani::proof] #[kani::unwind(22)] #[kani::stub(std::arch::x86_64::__cpuid_count, no_cpuid)] #[kani::stub(std::arch::x86_64::__cpuid, no_cpuid1)] ntfs_modules_short_t0_o7 => h_ntfs_modules_short::<7, 0, 8, _>;
+    #[kani::proof] #[kani::unwind(22)] #[kani::stub(std::arch::x86_64::__cpuid_count, no_cpuid)] #[kani::stub(std::arch::x86_64::__cpuid, no_cpuid1)] ntfs_modules_hash_t0_o7 => h_ntfs_modules_hash::<7, 0, 8, _>;
+    #[kani::proof] #[kani::unwind(22)] #[kani::stub(std::arch::x86_64::__cpuid_count, no_cpuid)] #[kani::stub(std::arch::x86_64::__cpuid, no_cpuid1)] ntfs_modules_short_t2_o4 => h_ntfs_modules_short::<4, 2, 10, _>;
+    #[kani::proof] #[kani::unwind(22)] #[kani::stub(std::arch::x86_64::__cpuid_count, no_cpuid)] #[kani::stub(std::arch::x86_64::__cpuid, no_cpuid1)] ntfs_modules_hash_t2_o4 => h_ntfs_modules_hash::<4, 2, 10, _>;
+    #[kani::proof] #[kani::unwind(22)] #[kani::stub(std::arch::x86_64::__cpuid_count, no_cpuid)] #[kani::stub(std::arch::x86_64::__cpuid, no_cpuid1)] ntfs_modules_short_t2_o7 => h_ntfs_modules_short::<7, 2, 10, _>;
+    #[kani::proof] #[kani::unwind(22)] #[kani::stub(std::arch::x86_64::__cpuid_count, no_cpuid)] #[kani::stub(std::arch::x86_64::__cpuid, no_cpuid1)] ntfs_modules_hash_t2_o7 => h_ntfs_modules_hash::<7, 2, 10, _>;
+    #[kani::proof] #[kani::unwind(16)] #[kani::stub(std::arch::x86_64::__cpuid_count, no_cpuid)] #[kani::stub(std::arch::x86_64::__cpuid, no_cpuid1)] win_device_con_end_o5 => h_win_device::<5, 0, 0, 0, 0, 12, _>;
+    #[kani::proof] #[kani::unwind(16)] #[kani::stub(std::arch::x86_64::__cpuid_count, no_cpuid)] #[kani::stub(std::arch::x86_64::__cpuid, no_cpuid1)] win_device_prn_end_o5 => h_win_device::<5, 1, 0, 0, 0, 12, _>;
+    #[kani::proof] #[kani::unwind(16)] #[kani::stub(std::arch::x86_64::__cpuid_count, no_cpuid)] #[kani::stub(std::arch::x86_64::__cpuid, no_cpuid1)] win_device_aux_end_o5 => h_win_device::<5, 2, 0, 0, 0, 12, _>;
+    #[kani::proof] #[kani::unwind(16)] #[kani::stub(std::arch::x86_64::__cpuid_count, no_cpuid)] #[kani::stub(std::arch::x86_64::__cpuid, no_cpuid1)] win_device_nul_end_o5 => h_win_device::<5, 3, 0, 0, 0, 12, _>;
+    #[kani::proof] #[kani::unwind(16)] #[kani::stub(std::arch::x86_64::__cpuid_count, no_cpuid)] #[kani::stub(std::arch::x86_64::__cpuid, no_cpuid1)] win_device_com_end_o5 => h_win_device::<5, 4, 0, 0, 0, 12, _>;
+    #[kani::proof] #[kani::unwind(16)] #[kani::stub(std::arch::x86_64::__cpuid_count, no_cpuid)] #[kani::stub(std::arch::x86_64::__cpuid, no_cpuid1)] win_device_lpt_end_o5 => h_win_device::<5, 5, 0, 0, 0, 12, _>;
+    #[kani::proof] #[kani::unwind(16)] #[kani::stub(std::arch::x86_64::__cpuid_count, no_cpuid)] #[kani::stub(std::arch::x86_64::__cpuid, no_cpuid1)] win_device_conin_end_o5 => h_win_device::<5, 6, 0, 0, 0, 12, _>;
+    #[kani::proof] #[kani::unwind(16)] #[kani::stub(std::arch::x86_64::__cpuid_count, no_cpuid)] #[kani::stub(std::arch::x86_64::__cpuid, no_cpuid1)] win_device_conout_end_o5 => h_win_device::<5, 7, 0, 0, 0, 12, _>;
+    #[kani::proof] #[kani::unwind(16)] #[kani::stub(std::arch::x86_64::__cpuid_count, no_cpuid)] #[kani::stub(std::arch::x86_64::__cpuid, no_cpuid1)] win_device_con_end_o7 => h_win_device::<7, 0, 0, 0, 0, 12, _>;
+    #[kani::proof] #[kani::unwind(16)] #[kani::stub(std::arch::x86_64::__cpuid_count, no_cpuid)] #[kani::stub(std::arch::x86_64::__cpuid, no_cpuid1)] win_device_prn_end_o7 => h_win_device::<7, 1, 0, 0, 0, 12, _>;
+    #[kani::proof] #[kani::unwind(16)] #[kani::stub(std::arch::x86_64::__cpuid_count, no_cpuid)] #[kani::stub(std::arch::x86_64::__cpuid, no_cpuid1)] win_device_aux_end_o7 => h_win_device::<7, 2, 0, 0, 0, 12, _>;
+    #[kani::proof] #[kani::unwind(16)] #[kani::stub(std::arch::x86_64::__cpuid_count, no_cpuid)] #[kani::stub(std::arch::x86_64::__cpuid, no_cpuid1)] win_device_nul_end_o7 => h_win_device::<7, 3, 0, 0, 0, 12, _>;
+    #[kani::proof] #[kani::unwind(16)] #[kani::stub(std::arch::x86_64::__cpuid_count, no_cpuid)] #[kani::stub(std::arch::x86_64::__cpuid, no_cpuid1)] win_device_com_end_o7 => h_win_device::<7, 4, 0, 0, 0, 12, _>;
+    #[kani::proof] #[kani::unwind(16)] #[kani::stub(std::arch::x86_64::__cpuid_count, no_cpuid)] #[kani::stub(std::arch::x86_64::__cpuid, no_cpuid1)] win_device_lpt_end_o7 => h_win_device::<7, 5, 0, 0, 0, 12, _>;
+    #[kani::proof] #[kani::unwind(16)] #[kani::stub(std::arch::x86_64::__cpuid_count, no_cpuid)] #[kani::stub(std::arch::x86_64::__cpuid, no_cpuid1)] win_device_conin_end_o7 => h_win_device::<7, 6, 0, 0, 0, 12, _>;
+    #[kani::proof] #[kani::unwind(16)] #[kani::stub(std::arch::x86_64::__cpuid_count, no_cpuid)] #[kani::stub(std::arch::x86_64::__cpuid, no_cpuid1)] win_device_conout_end_o7 => h_win_device::<7, 7, 0, 0, 0, 12, _>;
+    #[kani::proof] #[kani::unwind(16)] #[kani::stub(std::arch::x86_64::__cpuid_count, no_cpuid)] #[kani::stub(std::arch::x86_64::__cpuid, no_cpuid1)] win_device_con_sp2_end_o5 => h_win_device::<5, 0, 2, 0, 0, 12, _>;
+    #[kani::proof] #[kani::unwind(16)] #[kani::stub(std::arch::x86_64::__cpuid_count, no_cpuid)] #[kani::stub(std::arch::x86_64::__cpuid, no_cpuid1)] win_device_prn_sp2_end_o5 => h_win_device::<5, 1, 2, 0, 0, 12, _>;
+    #[kani::proof] #[kani::unwind(16)] #[kani::stub(std::arch::x86_64::__cpuid_count, no_cpuid)] #[kani::stub(std::arch::x86_64::__cpuid, no_cpuid1)] win_device_aux_sp2_end_o5 => h_win_device::<5, 2, 2, 0, 0, 12, _>;
+    #[kani::proof] #[kani::unwind(16)] #[kani::stub(std::arch::x86_64::__cpuid_count, no_cpuid)] #[kani::stub(std::arch::x86_64::__cpuid, no_cpuid1)] win_device_nul_sp2_end_o5 => h_win_device::<5, 3, 2, 0, 0, 12, _>;
+    #[kani::proof] #[kani::unwind(16)] #[kani::stub(std::arch::x86_64::__cpuid_count, no_cpuid)] #[kani::stub(std::arch::x86_64::__cpuid, no_cpuid1)] win_device_com_sp2_end_o5 => h_win_device::<5, 4, 2, 0, 0, 12, _>;
+    #[kani::proof] #[kani::unwind(16)] #[kani::stub(std::arch::x86_64::__cpuid_count, no_cpuid)] #[kani::stub(std::arch::x86_64::__cpuid, no_cpuid1)] win_device_lpt_sp2_end_o5 => h_win_device::<5, 5, 2, 0, 0, 12, _>;
+    #[kani::proof] #[kani::unwind(16)] #[kani::stub(std::arch::x86_64::__cpuid_count, no_cpuid)] #[kani::stub(std::arch::x86_64::__cpuid, no_cpuid1)] win_device_conin_sp2_end_o5 => h_win_device::<5, 6, 2, 0, 0, 12, _>;
+    #[kani::proof] #[kani::unwind(16)] #[kani::stub(std::arch::x86_64::__cpuid_count, no_cpuid)] #[kani::stub(std::arch::x86_64::__cpuid, no_cpuid1)] win_device_conout_sp2_end_o5 => h_win_device::<5, 7, 2, 0, 0, 12, _>;
+    #[kani::proof] #[kani::unwind(16)] #[kani::stub(std::arch::x86_64::__cpuid_count, no_cpuid)] #[kani::stub(std::arch::x86_64::__cpuid, no_cpuid1)] win_device_con_sp2_end_o7 => h_win_device::<7, 0, 2, 0, 0, 12, _>;
+    #[kani::proof] #[kani::unwind(16)] #[kani::stub(std::arch::x86_64::__cpuid_count, no_cpuid)] #[kani::stub(std::arch::x86_64::__cpuid, no_cpuid1)] win_device_prn_sp2_end_o7 => h_win_device::<7, 1, 2, 0, 0, 12, _>;
+    #[kani::proof] #[kani::unwind(16)] #[kani::stub(std::arch::x86_64::__cpuid_count, no_cpuid)] #[kani::stub(std::arch::x86_64::__cpuid, no_cpuid1)] win_device_aux_sp2_end_o7 => h_win_device::<7, 2, 2, 0, 0, 12, _>;
+    #[kani::proof] #[kani::unwind(16)] #[kani::stub(std::arch::x86_64::__cpuid_count, no_cpuid)] #[kani::stub(std::arch::x86_64::__cpuid, no_cpuid1)] win_device_nul_sp2_end_o7 => h_win_device::<7, 3, 2, 0, 0, 12, _>;
+    #[kani::proof] #[kani::unwind(16)] #[kani::stub(std::arch::x86_64::__cpuid_count, no_cpuid)] #[kani::stub(std::arch::x86_64::__cpuid, no_cpuid1)] win_device_com_sp2_end_o7 => h_win_device::<7, 4, 2, 0, 0, 12, _>;
+    #[kani::proof] #[kani::unwind(16)] #[kani::stub(std::arch::x86_64::__cpuid_count, no_cpuid)] #[kani::stub(std::arch::x86_64::__cpuid, no_cpuid1)] win_device_lpt_sp2_end_o7 => h_win_device::<7, 5, 2, 0, 0, 12, _>;
+    #[kani::proof] #[kani::unwind(16)] #[kani::stub(std::arch::x86_64::__cpuid_count, no_cpuid)] #[kani::stub(std::arch::x86_64::__cpuid, no_cpuid1)] win_device_conin_sp2_end_o7 => h_win_device::<7, 6, 2, 0, 0, 12, _>;
+    #[kani::proof] #[kani::unwind(16)] #[kani::stub(std::arch::x86_64::__cpuid_count, no_cpuid)] #[kani::stub(std::arch::x86_64::__cpuid, no_cpuid1)] win_device_conout_sp2_end_o7 => h_win_device::<7, 7, 2, 0, 0, 12, _>;
+    #[kani::proof] #[kani::unwind(16)] #[kani::stub(std::arch::x86_64::__cpuid_count, no_cpuid)] #[kani::stub(std::arch::x86_64::__cpuid, no_cpuid1)] win_device_con_dot2_o5 => h_win_device::<5, 0, 0, 1, 2, 12, _>;
+    #[kani::proof] #[kani::unwind(16)] #[kani::stub(std::arch::x86_64::__cpuid_count, no_cpuid)] #[kani::stub(std::arch::x86_64::__cpuid, no_cpuid1)] win_device_prn_dot2_o5 => h_win_device::<5, 1, 0, 1, 2, 12, _>;
+    #[kani::proof] #[kani::unwind(16)] #[kani::stub(std::arch::x86_64::__cpuid_count, no_cpuid)] #[kani::stub(std::arch::x86_64::__cpuid, no_cpuid1)] win_device_aux_dot2_o5 => h_win_device::<5, 2, 0, 1, 2, 12, _>;
+    #[kani::proof] #[kani::unwind(16)] #[kani::stub(std::arch::x86_64::__cpuid_count, no_cpuid)] #[kani::stub(std::arch::x86_64::__cpuid, no_cpuid1)] win_device_nul_dot2_o5 => h_win_device::<5, 3, 0, 1, 2, 12, _>;
+    #[kani::proof] #[kani::unwind(16)] #[kani::stub(std::arch::x86_64::__cpuid_count, no_cpuid)] #[kani::stub(std::arch::x86_64::__cpuid, no_cpuid1)] win_device_com_dot2_o5 => h_win_device::<5, 4, 0, 1, 2, 12, _>;
+    #[kani::proof] #[kani::unwind(16)] #[kani::stub(std::arch::x86_64::__cpuid_count, no_cpuid)] #[kani::stub(std::arch::x86_64::__cpuid, no_cpuid1)] win_device_lpt_dot2_o5 => h_win_device::<5, 5, 0, 1, 2, 12, _>;
+    #[kani::proof] #[kani::unwind(16)] #[kani::stub(std::arch::x86_64::__cpuid_count, no_cpuid)] #[kani::stub(std::arch::x86_64::__cpuid, no_cpuid1)] win_device_conin_dot2_o5 => h_win_device::<5, 6, 0, 1, 2, 12, _>;
+    #[kani::proof] #[kani::unwind(16)] #[kani::stub(std::arch::x86_64::__cpuid_count, no_cpuid)] #[kani::stub(std::arch::x86_64::__cpuid, no_cpuid1)] win_device_conout_dot2_o5 => h_win_device::<5, 7, 0, 1, 2, 12, _>;
+    #[kani::proof] #[kani::unwind(16)] #[kani::stub(std::arch::x86_64::__cpuid_count, no_cpuid)] #[kani::stub(std::arch::x86_64::__cpuid, no_cpuid1)] win_device_con_dot2_o7 => h_win_device::<7, 0, 0, 1, 2, 12, _>;
+    #[kani::proof] #[kani::unwind(16)] #[kani::stub(std::arch::x86_64::__cpuid_count, no_cpuid)] #[kani::stub(std::arch::x86_64::__cpuid, no_cpuid1)] win_device_prn_dot2_o7 => h_win_device::<7, 1, 0, 1, 2, 12, _>;
+    #[kani::proof] #[kani::unwind(16)] #[kani::stub(std::arch::x86_64::__cpuid_count, no_cpuid)] #[kani::stub(std::arch::x86_64::__cpuid, no_cpuid1)] win_device_aux_dot2_o7 => h_win_device::<7, 2, 0, 1, 2, 12, _>;
+    #[kani::proof] #[kani::unwind(16)] #[kani::stub(std::arch::x86_64::__cpuid_count, no_cpuid)] #[kani::stub(std::arch::x86_64::__cpuid, no_cpuid1)] win_device_nul_dot2_o7 => h_win_device::<7, 3, 0, 1, 2, 12, _>;
+    #[kani::proof] #[kani::unwind(16)] #[kani::stub(std::arch::x86_64::__cpuid_count, no_cpuid)] #[kani::stub(std::arch::x86_64::__cpuid, no_cpuid1)] win_device_com_dot2_o7 => h_win_device::<7, 4, 0, 1, 2, 12, _>;
+    #[kani::proof] #[kani::unwind(16)] #[kani::stub(std::arch::x86_64::__cpuid_count, no_cpuid)] #[kani::stub(std::arch::x86_64::__cpuid, no_cpuid1)] win_device_lpt_dot2_o7 => h_win_device::<7, 5, 0, 1, 2, 12, _>;
+    #[kani::proof] #[kani::unwind(16)] #[kani::stub(std::arch::x86_64::__cpuid_count, no_cpuid)] #[kani::stub(std::arch::x86_64::__cpuid, no_cpuid1)] win_device_conin_dot2_o7 => h_win_device::<7, 6, 0, 1, 2, 12, _>;
+    #[kani::proof] #[kani::unwind(16)] #[kani::stub(std::arch::x86_64::__cpuid_count, no_cpuid)] #[kani::stub(std::arch::x86_64::__cpuid, no_cpuid1)] win_device_conout_dot2_o7 => h_win_device::<7, 7, 0, 1, 2, 12, _>;
+    #[kani::proof] #[kani::unwind(16)] #[kani::stub(std::arch::x86_64::__cpuid_count, no_cpuid)] #[kani::stub(std::arch::x86_64::__cpuid, no_cpuid1)] win_device_con_sp1_colon2_o5 => h_win_device::<5, 0, 1, 2, 2, 12, _>;
+    #[kani::proof] #[kani::unwind(16)] #[kani::stub(std::arch::x86_64::__cpuid_count, no_cpuid)] #[kani::stub(std::arch::x86_64::__cpuid, no_cpuid1)] win_device_prn_sp1_colon2_o5 => h_win_device::<5, 1, 1, 2, 2, 12, _>;
+    #[kani::proof] #[kani::unwind(16)] #[kani::stub(std::arch::x86_64::__cpuid_count, no_cpuid)] #[kani::stub(std::arch::x86_64::__cpuid, no_cpuid1)] win_device_aux_sp1_colon2_o5 => h_win_device::<5, 2, 1, 2, 2, 12, _>;
+    #[kani::proof] #[kani::unwind(16)] #[kani::stub(std::arch::x86_64::__cpuid_count, no_cpuid)] #[kani::stub(std::arch::x86_64::__cpuid, no_cpuid1)] win_device_nul_sp1_colon2_o5 => h_win_device::<5, 3, 1, 2, 2, 12, _>;
+    #[kani::proof] #[kani::unwind(16)] #[kani::stub(std::arch::x86_64::__cpuid_count, no_cpuid)] #[kani::stub(std::arch::x86_64::__cpuid, no_cpuid1)] win_device_com_sp1_colon2_o5 => h_win_device::<5, 4, 1, 2, 2, 12, _>;
+    #[kani::proof] #[kani::unwind(16)] #[kani::stub(std::arch::x86_64::__cpuid_count, no_cpuid)] #[kani::stub(std::arch::x86_64::__cpuid, no_cpuid1)] win_device_lpt_sp1_colon2_o5 => h_win_device::<5, 5, 1, 2, 2, 12, _>;
+    #[kani::proof] #[kani::unwind(16)] #[kani::stub(std::arch::x86_64::__cpuid_count, no_cpuid)] #[kani::stub(std::arch::x86_64::__cpuid, no_cpuid1)] win_device_conin_sp1_colon2_o5 => h_win_device::<5, 6, 1, 2, 2, 12, _>;
+    #[kani::proof] #[kani::unwind(16)] #[kani::stub(std::arch::x86_64::__cpuid_count, no_cpuid)] #[kani::stub(std::arch::x86_64::__cpuid, no_cpuid1)] win_device_conout_sp1_colon2_o5 => h_win_device::<5, 7, 1, 2, 2, 12, _>;
+    #[kani::proof] #[kani::unwind(16)] #[kani::stub(std::arch::x86_64::__cpuid_count, no_cpuid)] #[kani::stub(std::arch::x86_64::__cpuid, no_cpuid1)] win_device_con_sp1_colon2_o7 => h_win_device::<7, 0, 1, 2, 2, 12, _>;
+    #[kani::proof] #[kani::unwind(16)] #[kani::stub(std::arch::x86_64::__cpuid_count, no_cpuid)] #[kani::stub(std::arch::x86_64::__cpuid, no_cpuid1)] win_device_prn_sp1_colon2_o7 => h_win_device::<7, 1, 1, 2, 2, 12, _>;
+    #[kani::proof] #[kani::unwind(16)] #[kani::stub(std::arch::x86_64::__cpuid_count, no_cpuid)] #[kani::stub(std::arch::x86_64::__cpuid, no_cpuid1)] win_device_aux_sp1_colon2_o7 => h_win_device::<7, 2, 1, 2, 2, 12, _>;
+    #[kani::proof] #[kani::unwind(16)] #[kani::stub(std::arch::x86_64::__cpuid_count, no_cpuid)] #[kani::stub(std::arch::x86_64::__cpuid, no_cpuid1)] win_device_nul_sp1_colon2_o7 => h_win_device::<7, 3, 1, 2, 2, 12, _>;
+    #[kani::proof] #[kani::unwind(16)] #[kani::stub(std::arch::x86_64::__cpuid_count, no_cpuid)] #[kani::stub(std::arch::x86_64::__cpuid, no_cpuid1)] win_device_com_sp1_colon2_o7 => h_win_device::<7, 4, 1, 2, 2, 12, _>;
+    #[kani::proof] #[kani::unwind(16)] #[kani::stub(std::arch::x86_64::__cpuid_count, no_cpuid)] #[kani::stub(std::arch::x86_64::__cpuid, no_cpuid1)] win_device_lpt_sp1_colon2_o7 => h_win_device::<7, 5, 1, 2, 2, 12, _>;
+    #[kani::proof] #[kani::unwind(16)] #[kani::stub(std::arch::x86_64::__cpuid_count, no_cpuid)] #[kani::stub(std::arch::x86_64::__cpuid, no_cpuid1)] win_device_conin_sp1_colon2_o7 => h_win_device::<7, 6, 1, 2, 2, 12, _>;
+    #[kani::proof] #[kani::unwind(16)] #[kani::stub(std::arch::x86_64::__cpuid_count, no_cpuid)] #[kani::stub(std::arch::x86_64::__cpuid, no_cpuid1)] win_device_conout_sp1_colon2_o7 => h_win_device::<7, 7, 1, 2, 2, 12, _>;
+    #[kani::proof] #[kani::unwind(16)] #[kani::stub(std::arch::x86_64::__cpuid_count, no_cpuid)] #[kani::stub(std::arch::x86_64::__cpuid, no_cpuid1)] separators_3_o0 => h_separators::<0, 3, _>;
+    #[kani::proof] #[kani::unwind(16)] #[kani::stub(std::arch::x86_64::__cpuid_count, no_cpuid)] #[kani::stub(std::arch::x86_64::__cpuid, no_cpuid1)] separators_3_o1 => h_separators::<1, 3, _>;
+    #[kani::proof] #[kani::unwind(16)] #[kani::stub(std::arch::x86_64::__cpuid_count, no_cpuid)] #[kani::stub(std::arch::x86_64::__cpuid, no_cpuid1)] separators_3_o7 => h_separators::<7, 3, _>;
 }
 
 #[cfg(not(kani))]
